@@ -577,7 +577,46 @@ Notation enc := (enc0 cname site).
 
 (* the function's own (module, qualname) leads back to it through get_func_in_module's unwrapping *)
 Definition importable_func (f : fid) : Prop :=
-  get_func_in_module env (fst (fname f)) (snd (fname f)) = Ok (OFunc f).
+  get_func_in_module env cname fname (fst (fname f)) (snd (fname f)) = Ok (OFunc f).
+
+(* the repaired last step of get_func_in_module (7b578c3): whatever is decoded carries the recorded qualified name ... *)
+Theorem decoded_function_has_recorded_name m q func own :
+  get_func_in_module env cname fname m q = Ok func ->
+  obj_qualname cname fname func = Ok (Some own) -> own = q.
+Proof.
+  unfold get_func_in_module. destruct (env m q) as [| |o|]; try discriminate.
+  destruct (func_of_kind (unwrap o)) as [f0| |]; cbn [rbind]; try discriminate.
+  destruct (obj_qualname cname fname f0) as [[qn|]| |] eqn:E; cbn [rbind]; try discriminate.
+  - destruct (String.eqb qn q) eqn:Q; try discriminate. intros H. injection H as <-.
+    rewrite E. intros H. injection H as <-. apply String.eqb_eq. exact Q.
+  - intros H. injection H as <-. rewrite E. discriminate.
+Qed.
+
+(* ... and a name that is now bound to another function (an alias, a non-wrapping decorator's inner function) is a
+   stale row: InvalidTypeError, never that other function *)
+Theorem rebound_name_rejected m q o g :
+  env m q = LFound o -> func_of_kind (unwrap o) = Ok (OFunc g) -> snd (fname g) <> q ->
+  get_func_in_module env cname fname m q = Raises InvalidTypeError.
+Proof.
+  intros E K N. unfold get_func_in_module. rewrite E, K. cbn [rbind obj_qualname].
+  destruct (String.eqb (snd (fname g)) q) eqn:Q; [|reflexivity].
+  apply String.eqb_eq in Q. contradiction.
+Qed.
+
+(* for the function's own name the test is vacuous: importable_func is exactly "lookup, unwrap and the kind steps lead to f" *)
+Lemma importable_func_iff f :
+  importable_func f <->
+  exists o, env (fst (fname f)) (snd (fname f)) = LFound o /\ func_of_kind (unwrap o) = Ok (OFunc f).
+Proof.
+  unfold importable_func, get_func_in_module. split.
+  - destruct (env (fst (fname f)) (snd (fname f))) as [| |o|]; try discriminate.
+    intros H. exists o. split; [reflexivity|].
+    destruct (func_of_kind (unwrap o)) as [f0| |]; cbn [rbind] in H; try discriminate.
+    destruct (obj_qualname cname fname f0) as [[qn|]| |]; cbn [rbind] in H; try discriminate.
+    + destruct (String.eqb qn (snd (fname f))); try discriminate. injection H as ->. reflexivity.
+    + injection H as ->. reflexivity.
+  - intros [o [E K]]. rewrite E, K. cbn [rbind obj_qualname]. rewrite String.eqb_refl. reflexivity.
+Qed.
 
 Definition good_opt (o : option ty) : Prop := match o with Some t => goodt t | None => True end.
 
@@ -646,7 +685,7 @@ Theorem trace_roundtrip tr :
   typing_ok env -> good_trace tr ->
   exists r d,
     from_trace cname fname site tr = Ok r
-    /\ to_trace env hidden r = Ok d
+    /\ to_trace cname fname env hidden r = Ok d
     /\ r_module r = fst (fname (tr_func tr)) /\ r_qualname r = snd (fname (tr_func tr))
     /\ dt_func d = OFunc (tr_func tr)
     /\ args_corrb (tr_args tr) (dt_args d) = true
@@ -705,7 +744,7 @@ Variable hidden : string -> option cls.
 Definition ok_type (t : ty) : Prop := inferable t /\ Forall (importable cname env hidden) (classes t).
 Definition ok_opt (o : option ty) : Prop := match o with Some t => ok_type t | None => True end.
 Definition ok_trace (tr : trace) : Prop :=
-  importable_func fname env (tr_func tr)
+  importable_func cname fname env (tr_func tr)
   /\ nodup_strb (map fst (tr_args tr)) = true
   /\ Forall (fun a => ok_type (snd a)) (tr_args tr)
   /\ ok_opt (tr_ret tr) /\ ok_opt (tr_yield tr).
@@ -745,7 +784,7 @@ Theorem trace_roundtrip_ok tr :
   typing_ok env -> ok_trace tr ->
   exists r d,
     from_trace cname fname site tr = Ok r
-    /\ to_trace env hidden r = Ok d
+    /\ to_trace cname fname env hidden r = Ok d
     /\ r_module r = fst (fname (tr_func tr)) /\ r_qualname r = snd (fname (tr_func tr))
     /\ dt_func d = OFunc (tr_func tr)
     /\ args_corrb (tr_args tr) (dt_args d) = true
